@@ -144,6 +144,16 @@ def writeReference (c : Cont R) (indexes : List Nat) (e : R × Nat) : Option (Co
   | none => none
   | some k => if k < c.elems.length then some { c with elems := c.elems.set k e } else none
 
+/-! ### containers over views -/
+
+/-- `RecordTensor::from_existing(history, view)` / `RecordMatrix::from_existing` over a view of
+    the container's own source (`view()`, `index_by`, `TensorRange`, `TensorReverse`,
+    `rename_view`, … and their compositions): the view shows, in row-major order of its shape
+    `vshape`, the source's elements at the row-major `offsets` (which offsets a view shows is the
+    subject of the view model, C02). -/
+def viewBy (c : Cont R) (vshape : Shape String) (offsets : List Nat) : Cont R :=
+  ⟨vshape, offsets.filterMap fun o => c.elems[o]?, c.history⟩
+
 /-! ### `AsRecords` -/
 
 section AsRecords
